@@ -164,7 +164,10 @@ def run(ctx):
     lres = link.check(ctx, "umap_knn", {"compute_membership_strengths": "src_compute_membership_strengths_eq",
                                         "smooth_knn_dist": "src_smooth_knn_dist_eq"})
     # the position-by-position / per-row corollaries of the same file are obligations as well
-    for thm in ("src_compute_membership_strengths_nth", "src_compute_membership_strengths_memberships", "src_smooth_knn_dist_row"):
+    # ... and the capstone corollaries of K_knn.v: P_C01 statements (bandwidth bounds and floor; strengths in (0,1], = 1 iff within rho,
+    # non-increasing in distance) about the translated source itself
+    for thm in ("src_compute_membership_strengths_nth", "src_compute_membership_strengths_memberships", "src_smooth_knn_dist_row",
+                "C01_src_bandwidth", "C01_src_strengths"):
         ob = "link:umap_knn:" + thm
         ctx.obligations.append(ob)
         bad = [a for a in lres.axioms.get(thm, []) if a not in ALLOWED_AXIOMS and not ctx._primitive(a)]
